@@ -29,7 +29,17 @@ func checkC22(r *Run) {
 	}
 	watermarked := hdr.Chance(4, 5)
 	dom := 1 + hdr.Draw(3)
+	// small domains, so that duplicates and matching retractions are common; the third column takes
+	// composite values of which one is a prefix of another, NULL, and strings differing in case
+	third := []octosql.Value{
+		octosql.NewNull(), octosql.NewList(nil), octosql.NewList([]octosql.Value{intv(1)}), octosql.NewList([]octosql.Value{intv(1), intv(2)}),
+		strv("a"), strv("A"), octosql.NewStruct([]octosql.Value{intv(1), octosql.NewNull()}), octosql.NewFloat(1),
+	}
+	wide := hdr.Chance(1, 2)
 	row := func(t *Tape, i, sec int) []octosql.Value {
+		if wide {
+			return []octosql.Value{intv(1 + t.Draw(dom)), intv(t.Draw(2)), third[t.Draw(len(third))]}
+		}
 		return []octosql.Value{intv(1 + t.Draw(dom)), intv(t.Draw(2))}
 	}
 	script := GenChangelog(t.Block(8*maxSteps+10), ChangelogCfg{MaxSteps: maxSteps, Watermarked: watermarked, Retractions: true, Dups: true,
